@@ -70,6 +70,19 @@ impl Obj {
             Obj::Merged(x) => x.start_with(v),
         }
     }
+    fn assign_from(&mut self, src: &Obj) -> bool {
+        match (self, src) {
+            (Obj::Single(d), Obj::Single(s)) => {
+                d.clone_from(s);
+                true
+            }
+            (Obj::Merged(d), Obj::Merged(s)) => {
+                d.clone_from(s);
+                true
+            }
+            _ => false,
+        }
+    }
     fn duplicate(&self) -> Obj {
         match self {
             Obj::Single(x) => Obj::Single(x.clone()),
@@ -96,6 +109,8 @@ enum TOp {
     Update { obj: usize, slot: usize, t: f32 },
     StartWith { obj: usize, v: Vals },
     Clone { obj: usize },
+    /// `dst.clone_from(&src)` (same kind of object: both plain or both merged)
+    CloneFrom { dst: usize, src: usize },
     Drop { obj: usize },
     Dirty { slot: usize, v: Vals },
 }
@@ -135,6 +150,7 @@ fn scn_to_json(s: &Scn) -> Json {
                                 Json::obj().set("start_with", *obj).set("values", vals_to_json(v))
                             }
                             TOp::Clone { obj } => Json::obj().set("clone", *obj),
+                            TOp::CloneFrom { dst, src } => Json::obj().set("clone_from_dst", *dst).set("src", *src),
                             TOp::Drop { obj } => Json::obj().set("drop", *obj),
                             TOp::Dirty { slot, v } => {
                                 Json::obj().set("dirty", *slot).set("values", vals_to_json(v))
@@ -161,6 +177,11 @@ fn scn_from_json(j: &Json) -> Result<Scn, String> {
             TOp::StartWith {
                 obj: obj.as_i64()? as usize,
                 v: vals_from_json(o.req("values")?)?,
+            }
+        } else if let Some(dst) = o.get("clone_from_dst") {
+            TOp::CloneFrom {
+                dst: dst.as_i64()? as usize,
+                src: o.req("src")?.as_i64()? as usize,
             }
         } else if let Some(obj) = o.get("clone") {
             TOp::Clone {
@@ -246,6 +267,23 @@ fn generate(rng: &mut Rng, property: &str, deep: bool) -> Scn {
             alive.push((next_index, spec_idx));
             next_index += 1;
             continue;
+        }
+        if rng.chance(p_clone * 0.7) && alive.len() > 1 {
+            let (src, src_spec) = *rng.pick(&alive);
+            let same_kind = matches!(
+                (&pool[spec_idx], &pool[src_spec]),
+                (ObjSpec::Single(_), ObjSpec::Single(_)) | (ObjSpec::Merged(_), ObjSpec::Merged(_))
+            );
+            if src != obj && same_kind {
+                ops.push((TOp::CloneFrom { dst: obj, src }, "op"));
+                // the destination now descends from the source's specification
+                for a in alive.iter_mut() {
+                    if a.0 == obj {
+                        a.1 = src_spec;
+                    }
+                }
+                continue;
+            }
         }
         if rng.chance(p_drop) && alive.len() > 1 {
             ops.push((TOp::Drop { obj }, "op"));
@@ -375,6 +413,38 @@ fn execute(scn: &Scn, property: &str) -> RunOutcome {
                     *l = None;
                 }
                 out.count("op.drop");
+            }
+            TOp::CloneFrom { dst, src } => {
+                if dst != src {
+                    let src_info = live.get(*src).and_then(|l| l.as_ref()).map(|l| (l.obj.duplicate(), l.spec, l.last_start.clone(), l.meta));
+                    // (duplicate() is only used to hold a borrow-free copy of the source object)
+                    if let (Some((src_obj, spec, last_start, meta)), Some(Some(d))) = (src_info, live.get_mut(*dst)) {
+                        let ok = match catch(|| d.obj.assign_from(&src_obj)) {
+                            Ok(ok) => ok,
+                            Err(p) => bail_panic!(p, step, "clone_from"),
+                        };
+                        if ok {
+                            d.spec = spec;
+                            d.last_start = last_start;
+                            out.count("op.clone_from");
+                            let m = match catch(|| d.obj.meta()) {
+                                Ok(m) => m,
+                                Err(p) => bail_panic!(p, step, "metadata"),
+                            };
+                            out.evaluations += 1;
+                            if !meta_eq(&m, &meta) {
+                                out.violation = Some(viol(
+                                    property,
+                                    "clone-metadata",
+                                    step,
+                                    format!("after clone_from the destination reports {:?}, the source {:?}", m, meta),
+                                    "clone_from".into(),
+                                ));
+                            }
+                            d.meta = m;
+                        }
+                    }
+                }
             }
             TOp::Clone { obj } => {
                 let new = match live.get(*obj).and_then(|l| l.as_ref()) {
